@@ -149,6 +149,10 @@ Proof. exact source_handle_len_is_the_model. Qed.
 Theorem C07_source_handle_len_exact : forall d name, DInv d -> DbGetGen.gen_meas___len__ d name = length (filter (fun p => str_eqb (p_meas p) name) (db_rows d)).
 Proof. exact source_handle_len_exact. Qed.
 
+(* all(sorted): Storage.read() and a stable sort by time, compiled from database.py *)
+Theorem C07_source_db_all_exact : forall d srt, DbGetGen.gen_db_all (db_prelude d) srt = spec_all srt (db_rows d).
+Proof. exact source_db_all. Qed.
+
 Print Assumptions C07_source_index_len_is_the_model.
 Print Assumptions C07_source_index_valid_is_the_model.
 Print Assumptions C07_source_index_measurements_is_the_model.
@@ -175,3 +179,4 @@ Print Assumptions C07_source_db_timestamps_exact.
 Print Assumptions C07_source_db_tag_values_exact.
 Print Assumptions C07_source_handle_len_is_the_model.
 Print Assumptions C07_source_handle_len_exact.
+Print Assumptions C07_source_db_all_exact.
